@@ -2,7 +2,45 @@
 import json
 import vcheck
 
-GROUPS = ["ctor", "len", "ovl", "ft", "fa", "bc", "prep", "ex"]
+GROUPS = ["ctor", "len", "ovl", "ft", "fa", "bc", "prep", "ex", "lag"]
+LAG_FIELDS = ("f64", "f62", "f128")
+
+
+def lag_lengths(fld, L):
+    """log2 of the trace lengths the Lagrange group must cover (same rule as lag_lengths in harness/src/bin/c16.rs)."""
+    v = list(range(1, L + 1))
+    if fld == "f64":
+        v += [e for e in (14, 16) if e > L]
+    return v
+
+
+def lag_coverage(ctx, profile, lines, diffs, L):
+    """Every constraint k = 1..log2(n) of every sampled trace length n (three fields) must have been compared with the
+    model: a case line `lagd <field> <n> <k> ..` present in the harness output, a count line `lagn <field> <n>`, and no
+    disagreement on them.  The expected set is computed HERE from L, not from what the harness (or the library's
+    num_constraints()) chose to enumerate."""
+    want_d = {(f, 1 << v, k) for f in LAG_FIELDS for v in lag_lengths(f, L) for k in range(1, v + 1)}
+    want_n = {(f, 1 << v) for f in LAG_FIELDS for v in lag_lengths(f, L)}
+    seen_d, seen_n = set(), set()
+    for l in lines:
+        if " => " not in l:
+            continue
+        w = l.split(" => ", 1)[0].split()
+        try:
+            if w[0] == "lagd":
+                seen_d.add((w[1], int(w[2], 16), int(w[3], 16)))
+            elif w[0] == "lagn":
+                seen_n.add((w[1], int(w[2], 16)))
+        except (IndexError, ValueError):
+            pass
+    missing = sorted(want_d - seen_d) + sorted(want_n - seen_n)
+    ctx.ob(f"coverage:lag:every-constraint-every-length:{profile}", not missing,
+           f"{len(missing)} (field, n, k) not enumerated, e.g. {missing[:4]}")
+    bad = [d["case"][:60] for d in diffs if d["case"].startswith(("lagd ", "lagn "))]
+    ctx.ob(f"coverage:lag:compared-equal:{profile}", not bad, f"{len(bad)} disagreements on Lagrange divisors/counts, e.g. {bad[:3]}")
+    ctx.notes.setdefault("lagrange_coverage", {})[profile] = {
+        "log2_lengths": {f: lag_lengths(f, L) for f in LAG_FIELDS}, "constraints_compared": len(want_d & seen_d),
+        "constraints_expected": len(want_d)}
 
 
 def cmp_release(case, impl, model):
@@ -16,6 +54,9 @@ def cmp_release(case, impl, model):
 def run(ctx):
     quick = ctx.tier == "quick"
     nmax = 64 if quick else 256
+    # Lagrange kernel constraints: trace lengths 2^1..2^L (+2^14, 2^16 on f64); the model evaluates its divisors at EVERY
+    # point of the trace domain for n <= 2^LF, above that the model side of the zero pattern is the proved row set lag_rows
+    lag_L, lag_LF = (12, 8) if quick else (13, 10)
     ctx.rule = ("correspondence: EXHAUSTIVE enumeration for every trace length 8.." + str(nmax) + " (powers of two) of every assertion "
                 "valid for it (single: every step; periodic: every stride 2..n and first step; sequence: every #values 2..n/2 and first "
                 "step), every ordered pair of them in one column (overlaps_with), every exemption count 0..n+1 (from_transition structure, "
@@ -23,14 +64,25 @@ def run(ctx):
                 "step, its successor and a random point), BoundaryConstraint value polynomials for every sequence assertion, constructor "
                 "acceptance on a grid 0..n+2 plus usize boundary values, validate_trace_length/get_num_steps/apply on every constructible "
                 "assertion x {all n<=65, 2^j-1,2^j,2^j+1, 2^63, usize::MAX}, prepare_assertions on all ordered pairs for n=8 and random lists; "
-                "on f64, f62, f128 with g = get_root_of_unity(log2 n).  falsifier: brute-force step sets from the definition of the three kinds "
+                "on f64, f62, f128 with g = get_root_of_unity(log2 n).  Lagrange kernel constraints (real LagrangeKernelConstraints obtained "
+                "through an AIR with a Lagrange kernel column): for EVERY trace length 2^1..2^" + str(lag_L) + " (and 2^14, 2^16 on f64), three fields: "
+                "number of coefficients drawn / num_constraints() / number of divisors, and for EVERY constraint k = 1..log2 n the zero pattern of "
+                "evaluate_ith_divisor over the WHOLE trace domain + values at two random points (model side: its divisor evaluated at every domain "
+                "point for n <= 2^" + str(lag_LF) + ", the proved row set above); frames from_lagrange_kernel_column_poly, every evaluate_ith_numerator, "
+                "evaluate_and_combine and the boundary constraint at every row and at outside points for the honest column, one corrupted column "
+                "per constraint and a random column (n = 4..32); ill-sized frames / random elements / coefficient vectors (panics, zip truncation).  falsifier: brute-force step sets from the definition of the three kinds "
                 "and reference u128 polynomial evaluation (divisor = product over the intended steps), all n, all k in 0..n/2+1, all assertions, all pairs; "
+                "Lagrange kernel constraints against their definition: count = log2 n, divisor k zero exactly on the multiples of n/2^(k-1) "
+                "(all rows, all k, n up to 2^" + str(lag_L) + " / 2^16) and = x^(2^(k-1)) - 1 at random points, union of domains = even rows, numerators = definition at "
+                "every row, zero on the enforcement domain for the honest column, a cell corrupted in row odd*2^(v-k) leaves constraints < k satisfied and "
+                "is detected by constraint k (n <= 1024), evaluate_and_combine = sum over ALL log2 n constraints (reference Horner + inverse), boundary constraint; "
                 "distinct = distinct case lines")
     ctx.assumptions += [
         "the extension-field embedding E::from(B) and evaluation at extension-field points are not modelled (E = B); the trace-domain statements only involve base-field points",
         "fft::interpolate_poly is modelled by its specification (inverse DFT); the correspondence compares the resulting coefficients with the real FFT output on every sequence assertion (the FFT itself is C09)",
         "B::get_root_of_unity(log2 n) has exact order n (checked numerically by the falsifier for every n and field; TWO_ADIC_ROOT_OF_UNITY order is C07/C08)",
         "usize is 64 bits (theorems assume n < 2^64)",
+        "Lagrange kernel constraints: E = B; the honest column is the one harness/src/lagfam.rs builds (bit b of the row selects r_b or 1 - r_b); how the prover/verifier FILL the frame from the trace (TraceLde::read_lagrange_kernel_frame_into, the OOD frame) is outside C16 (from_lagrange_kernel_column_poly is modelled and tied); the prover's own divisor table (prover/src/constraints/evaluator/lagrange.rs) is not an anchored file",
         "translator-tied (model proved equal to rs2v output): single/periodic/sequence, validate_stride, is_single/is_periodic/is_sequence, overlaps_with, validate_trace_width, validate_trace_length, get_num_steps; hand-modelled and tied by correspondence only: apply, Ord::cmp, prepare_assertions, set_num_transition_exemptions, get_evaluation_degree and the field-level functions",
     ]
     # integer-level functions of assertions/mod.rs are regenerated from the source on every run (coq/Gen/Assertions.v);
@@ -47,15 +99,20 @@ def run(ctx):
         hb = ctx.build_harness("c16", profile)
         if hb and drv:
             for g in GROUPS:
-                rc, out, dt = vcheck.sh([hb, "corr", str(ctx.seed), str(nmax), g], timeout=900)
+                extra = [str(lag_L), str(lag_LF)] if g == "lag" else []
+                rc, out, dt = vcheck.sh([hb, "corr", str(ctx.seed), str(nmax), g] + extra, timeout=900)
                 lines = out.split("\n")
                 sizes[f"{g}:{profile}"] = sum(1 for l in lines if " => " in l)
                 if rc != 0 or not sizes[f"{g}:{profile}"]:
                     ctx.ob(f"harness-run:{g}:{profile}", False, out[-300:])
+                    if g == "lag":
+                        lag_coverage(ctx, profile, [], [], lag_L)
                     continue
-                ctx.correspondence(f"{g}:{profile}", lines, drv, compare=cmp, timeout=2400)
+                diffs = ctx.correspondence(f"{g}:{profile}", lines, drv, compare=cmp, timeout=2400, shards=8 if g == "lag" else 1)
+                if g == "lag":
+                    lag_coverage(ctx, profile, lines, diffs, lag_L)
         if hb:
-            rc, out, _ = vcheck.sh([hb, "falsify", str(ctx.seed), str(nmax)], timeout=1500)
+            rc, out, _ = vcheck.sh([hb, "falsify", str(ctx.seed), str(nmax), str(lag_L)], timeout=1500)
             nfail, seen_tail = 0, False
             for line in out.split("\n"):
                 if line.startswith("{"):
@@ -64,7 +121,7 @@ def run(ctx):
                     except ValueError:
                         continue
                     f["profile"] = profile
-                    f["replay"] = f"{hb} falsify {ctx.seed} {nmax}"
+                    f["replay"] = f"{hb} falsify {ctx.seed} {nmax} {lag_L}"
                     nfail += 1
                     ctx.add_failure(f)
                 elif line.startswith("evaluations="):
@@ -77,6 +134,10 @@ def run(ctx):
     ctx.notes["exhaustive"] = (f"trace lengths {[n for n in (8, 16, 32, 64, 128, 256) if n <= nmax]}; all valid assertions per length "
                                "(n + (2n-2) + (n-2) per column), all ordered same-column pairs, all exemption counts 0..n+1 "
                                "(n<=64; 0..n/2+2,n-1,n,n+1 above) on three fields")
+    ctx.notes["lagrange"] = ("constraint k (from 1) of a trace of length n = 2^v: divisor x^(2^(k-1)) - 1 (no exemptions), enforced on the multiples of "
+                             "n/2^(k-1), relates rows i and i + n/2^k; union of the domains = even rows; every row but 0 is the second row of exactly one "
+                             "enforced (k, i); odd rows are read by constraint v only (C16_lagrange_*); dropping the last constraint leaves the odd rows "
+                             "unconstrained (C16_lagrange_cover_without_last_refuted, C16_lagrange_determine_without_last_refuted)")
     ctx.notes["evaluate_at_totalisation"] = ("ConstraintDivisor::evaluate_at returns 0 (0 * inv(0)) at the k exempt trace-domain points, where the quotient "
                                              "polynomial is non-zero; stated by theorem C16_transition_evaluate_at_exempt_is_zero")
     # bin/check calls ctx.finish() without arguments: add the coverage keys of a fully enumerated finite space
